@@ -219,6 +219,7 @@ func Run(p *Program, o Opts) (res Outcome) {
 			failMsg = fmt.Sprintf(f, a...)
 		}
 	})
+	defer w.Release()
 	res.World = w
 	done := make(chan struct{})
 	go func() {
